@@ -4,6 +4,9 @@
 pub mod pgen;
 pub mod prog;
 pub mod reqs;
+pub mod c12;
+pub mod c13;
+pub mod cliworld;
 pub mod corpus;
 pub mod gcsim;
 pub mod heap;
